@@ -506,8 +506,33 @@ fn check_setup(c: &SetupCase, ctx: &mut CaseCtx) -> Result<(), Failure> {
             refused(ctx, "mlpst", "commit", "oversized_polynomial", &guard_plain(|| MlPst::commit(&ck, &big)), || format!("{} variables, key {nvk}", big.num_vars))?;
             refused(ctx, "mlpst", "open", "oversized_polynomial", &guard_plain(|| MlPst::open(&ck, &big, &vec![Fr::one(); big.num_vars])), || "open".into())?;
             refused(ctx, "mlpst", "trim", "too_many_variables", &guard_plain(|| MlPst::trim(&pp, nv_max + 1 + (s as usize % 3))), || "trim".into())?;
+            // the prover refuses a polynomial with fewer variables than the key (its quotient bases are
+            // laid out for exactly the key's number of variables); the committer defines that case, so
+            // only `open` is asserted - with a point of the polynomial's length and of the key's length
+            if nvk >= 2 {
+                let few = nvk - 1 - (s as usize % 2).min(nvk - 2);
+                let small = mle_over(few, s ^ 2);
+                ctx.label("open_with_fewer_variables_than_the_key");
+                refused(ctx, "mlpst", "open", "too_few_variables", &guard_plain(|| MlPst::open(&ck, &small, &vec![Fr::from(3u64); few])), || format!("{few} variables under a key for {nvk}"))?;
+                refused(ctx, "mlpst", "open", "too_few_variables_long_point", &guard_plain(|| MlPst::open(&ck, &small, &vec![Fr::from(3u64); nvk])), || format!("{few} variables under a key for {nvk}, point of length {nvk}"))?;
+            }
             let p = mle_over(nvk, s ^ 1);
             let z: Vec<Fr> = (0..nvk).map(|i| Fr::from(i as u64 + 2)).collect();
+            // points of the wrong length handed to the prover
+            let mut zs = z.clone();
+            zs.pop();
+            let mut zl = z.clone();
+            zl.push(Fr::from(9u64));
+            for (bad, what) in [(zs, "point_too_short"), (zl, "point_too_long")] {
+                if let Out::Ok(pr) = guard_plain(|| MlPst::open(&ck, &p, &bad)) {
+                    // served: nothing false may verify with it
+                    if let Out::Ok(cm) = guard_plain(|| MlPst::commit(&ck, &p)) {
+                        let r = guard_plain(|| MlPst::check(&vk, &cm, &z, p.evaluate(&z) + Fr::one(), &pr));
+                        ctx.check(!accepted(&r), sig(P, "mlpst", "open", &format!("{what}_proves_false_value")), || r.describe())?;
+                    }
+                    ctx.label("served_but_sound");
+                }
+            }
             let (Out::Ok(cm), Out::Ok(pr)) = (guard_plain(|| MlPst::commit(&ck, &p)), guard_plain(|| MlPst::open(&ck, &p, &z))) else { return Ok(()) };
             let mut short = z.clone();
             short.pop();
@@ -564,7 +589,7 @@ pub fn spec() -> PropertySpec {
         assumptions: vec![
             "IPA treats any hiding bound (including 0) as 'hiding' and Ligero parameters do not bound the polynomial size: not out of domain for those schemes",
             "multilinear Ligero / Brakedown verifiers read a point positionally (tensor vectors, inner products that stop at the shorter operand) and the commitment does not record the number of variables: a point lacking its last coordinate is read as if that coordinate were 0; accepting the polynomial's value at the zero-padded point is treated as scheme-defined, any other accepted value is a violation",
-            "PST13 / multilinear PST polynomials with fewer variables than the key are scheme-defined and not asserted",
+            "PST13 / multilinear PST *commit* with fewer variables than the key is scheme-defined and not asserted; multilinear PST *open* refuses such a polynomial on this tree and is asserted to",
             "schemes without degree-bound or hiding support (PST13: bounds; Hyrax: both fields; Ligero/Brakedown: both, documented as 'does not support hiding') ignore those LabeledPolynomial fields, and the repository's own test templates pass hiding bounds to them: treated as defined behaviour, not as an out-of-domain request",
         ],
         units,
